@@ -95,6 +95,7 @@ package storage
 //@   ensures [frame] forall k mathint :: {badger.kvget(*txn, k)} k != AIK(id) ==> badger.kvget(*txn, k) == old(badger.kvget(*txn, k))
 //@   ensures [written] err == nil ==> HasAssetInfo(*txn, id)
 //@   ensures [fail] err != nil ==> *txn == old(*txn)
+//@   ensures [db] badger.txndb(*txn) == old(badger.txndb(*txn)) -- the transaction stays attached to its DB (needed by NewTransaction/Commit style callers: C15)
 //@   ensures [c16-accepts] err != nil && (!old(HasAssetInfo(*txn, id)) || (common.AssetInfoWf(old(badger.kvget(*txn, AIK(id)))) && old(SameInfo(*txn, id, a)))) ==> badger.iofail(err)
 
 //@ -- writeTotalInAsset: ASSETTOTAL/<asset> moves by Delta(ver), by transaction class (C17):
@@ -120,6 +121,7 @@ package storage
 //@   modifies *txn
 //@   ensures [frame] forall k mathint :: {badger.kvget(*txn, k)} k != ATK(ver.Asset) ==> badger.kvget(*txn, k) == old(badger.kvget(*txn, k))
 //@   ensures [fail] err != nil ==> *txn == old(*txn)
+//@   ensures [db] badger.txndb(*txn) == old(badger.txndb(*txn)) -- the transaction stays attached to its DB (needed by NewTransaction/Commit style callers: C15)
 //@   ensures [deposit] err == nil && common.DepositShape(&ver.SignedTransaction.Transaction) ==> TotalOf(*txn, ver.Asset) == old(TotalOf(*txn, ver.Asset)) + val(ver.Inputs[0].Deposit.Amount)
 //@   ensures [mint] err == nil && common.MintShape(&ver.SignedTransaction.Transaction) ==> TotalOf(*txn, ver.Asset) == old(TotalOf(*txn, ver.Asset)) + val(ver.Inputs[0].Mint.Amount)
 //@   ensures [genesis] err == nil && common.GenesisShape(&ver.SignedTransaction.Transaction) ==> TotalOf(*txn, ver.Asset) == old(TotalOf(*txn, ver.Asset)) + common.SumOut(ver.Outputs, len(ver.Outputs))
@@ -180,6 +182,7 @@ package storage
 //@   ensures [idempotent] let h == ver.hash in old(Finalized(*txn, h)) ==> *txn == old(*txn) && (err == nil || badger.iofail(err)) -- nothing is written, no output or total is re-applied; the only possible error is the store's own failure to read the record
 //@   ensures [fin-record] let h == ver.hash in !old(Finalized(*txn, h)) && err == nil ==> badger.kvget(*txn, FK(h)) == old(common.SnapId(snap.Snapshot))
 //@   ensures [finalized] err == nil ==> Finalized(*txn, ver.hash)
+//@   ensures [db] badger.txndb(*txn) == old(badger.txndb(*txn)) -- the transaction stays attached to its DB (needed by NewTransaction/Commit style callers: C15)
 //@   ensures [first-wins] forall k mathint :: {badger.kvget(*txn, k)} keykind(k) == 6 && old(badger.kvget(*txn, k)) != 0 ==> badger.kvget(*txn, k) == old(badger.kvget(*txn, k))
 //@   ensures [ghost-first] forall k mathint :: {badger.kvget(*txn, k)} keykind(k) == 2 && old(badger.kvget(*txn, k)) != 0 ==> badger.kvget(*txn, k) == old(badger.kvget(*txn, k)) -- an existing one-time-key binding is never overwritten (C04, through writeUTXO)
 //@   ensures [frame] let h == ver.hash in forall k mathint :: {badger.kvget(*txn, k)} badger.kvget(*txn, k) != old(badger.kvget(*txn, k)) ==>
@@ -200,6 +203,7 @@ package storage
 //@   loop 0 invariant [shape] TxShapeOK(ver)
 //@   loop 0 invariant [utxos] forall j int :: {rangeexpr[j]} 0 <= j && j < len(rangeexpr) ==> fresh(rangeexpr[j]) && allocated(rangeexpr[j]) && common.UtxoOf(rangeexpr[j], ver)
 //@   loop 0 invariant [ghost-first] forall k mathint :: {badger.kvget(*txn, k)} keykind(k) == 2 && old(badger.kvget(*txn, k)) != 0 ==> badger.kvget(*txn, k) == old(badger.kvget(*txn, k))
+//@   loop 0 invariant [db] badger.txndb(*txn) == old(badger.txndb(*txn))
 //@   loop 0 invariant [was-new] let h == ver.hash in old(badger.kvget(*txn, FK(h))) == 0
 //@   loop 0 invariant [fin] badger.kvget(*txn, FK(ver.hash)) == old(common.SnapId(snap.Snapshot)) && badger.kvget(*txn, FK(ver.hash)) != 0
 //@   loop 0 invariant [frame] let h == ver.hash in forall k mathint :: {badger.kvget(*txn, k)} badger.kvget(*txn, k) != old(badger.kvget(*txn, k)) ==>
@@ -215,6 +219,7 @@ package storage
 //@   requires txn != nil && SnapOK(snap)
 //@   modifies *txn
 //@   ensures [frame] forall k mathint :: {badger.kvget(*txn, k)} k != TopoKeyId(snap.TopologicalOrder) && k != SnapTopoKeyId(common.SnapId(snap.Snapshot)) ==> badger.kvget(*txn, k) == old(badger.kvget(*txn, k))
+//@   ensures [db] badger.txndb(*txn) == old(badger.txndb(*txn)) -- the transaction stays attached to its DB (needed by NewTransaction/Commit style callers: C15)
 //@   ensures [slot-free] old(badger.kvget(*txn, TopoKeyId(snap.TopologicalOrder))) == 0 -- on every returning execution the slot was free: an order is never reassigned
 //@   ensures [written] err == nil ==> badger.kvget(*txn, TopoKeyId(snap.TopologicalOrder)) == KeyAsVal(SnapKeyId(kvval(snap.NodeId), snap.RoundNumber, common.SnapId(snap.Snapshot))) &&
 //@       badger.kvget(*txn, SnapTopoKeyId(common.SnapId(snap.Snapshot))) == KeyAsVal(TopoKeyId(snap.TopologicalOrder))
@@ -227,6 +232,7 @@ package storage
 //@   ensures [frame] forall k mathint :: {badger.kvget(*txn, k)} k != WorkSnapKeyId(kvval(snap.NodeId), snap.RoundNumber, snap.Timestamp) ==> badger.kvget(*txn, k) == old(badger.kvget(*txn, k))
 //@   ensures [written] err == nil ==> badger.kvget(*txn, WorkSnapKeyId(kvval(snap.NodeId), snap.RoundNumber, snap.Timestamp)) != 0
 //@   ensures [fail] err != nil ==> *txn == old(*txn)
+//@   ensures [db] badger.txndb(*txn) == old(badger.txndb(*txn)) -- the transaction stays attached to its DB (needed by NewTransaction/Commit style callers: C15)
 //@   loop 0 invariant [own] fresh(val) && len(val) == (1 + len(signers)) * 32
 //@   loop 0 invariant [key] fresh(key) && kvkey(key) == WorkSnapKeyId(kvval(snap.NodeId), snap.RoundNumber, snap.Timestamp) && arr(key) != arr(val)
 
@@ -257,9 +263,62 @@ package storage
 //@   modifies *txn
 //@   ensures [change] SnapChange(old(*txn), *txn, kvval(snap.NodeId), SnapKeyOf(snap), snap.TopologicalOrder, common.SnapId(snap.Snapshot))
 //@   ensures [unique] err == nil ==> forall i int :: {snap.Transactions[i]} 0 <= i && i < len(snap.Transactions) ==> badger.kvget(*txn, QK(snap.NodeId, snap.Transactions[i])) != 0
+//@   ensures [db] badger.txndb(*txn) == old(badger.txndb(*txn)) -- the transaction stays attached to its DB (needed by NewTransaction/Commit style callers: C15)
 //@   ensures [snapshot] err == nil ==> badger.kvget(*txn, SnapKeyOf(snap)) != 0
 //@   ensures [topology] err == nil ==> badger.kvget(*txn, TopoKeyId(snap.TopologicalOrder)) == KeyAsVal(SnapKeyOf(snap)) && badger.kvget(*txn, SnapTopoKeyId(common.SnapId(snap.Snapshot))) == KeyAsVal(TopoKeyId(snap.TopologicalOrder)) &&
 //@       old(badger.kvget(*txn, TopoKeyId(snap.TopologicalOrder))) == 0
 //@   loop 0 invariant [change] SnapChange(old(*txn), *txn, kvval(snap.NodeId), SnapKeyOf(snap), snap.TopologicalOrder, common.SnapId(snap.Snapshot))
+//@   loop 0 invariant [db] badger.txndb(*txn) == old(badger.txndb(*txn))
 //@   loop 0 invariant [untouched] forall k mathint :: {badger.kvget(*txn, k)} keykind(k) == 8 || keykind(k) == 9 || keykind(k) == 10 ==> badger.kvget(*txn, k) == old(badger.kvget(*txn, k))
 //@   loop 0 invariant [unique] forall j int :: {snap.Transactions[j]} 0 <= j && j <= rangeindex ==> badger.kvget(*txn, QK(snap.NodeId, snap.Transactions[j])) != 0
+
+//@ -- the Debug assertion block of WriteSnapshot reads the round cache of the snapshot's node (ROUND/<node>, kind 17)
+//@ uninterp RoundKeyId(h mathint) mathint
+//@ axiom forall h mathint :: {RoundKeyId(h)} keykind(RoundKeyId(h)) == 17 && keyhid(RoundKeyId(h)) == h
+//@ assume func graphRoundKey
+//@   modifies nothing
+//@   ensures fresh(result) && kvkey(result) == RoundKeyId(kvval(hash))
+//@ -- readRound: ASSUMED (the round codec is not under contract). Transcribed from the body: ErrKeyNotFound => (nil, nil), errors are
+//@ -- returned, otherwise the decoded round (it panics on a record whose hash field is zero: corrupt store). [references] is the store
+//@ -- invariant that a cached round with a positive number carries its references (every writer of ROUND/<node> after round 0 is
+//@ -- StartNewRound / UpdateEmptyHeadRound, which store a non-nil link).
+//@ assume func readRound
+//@   requires txn != nil
+//@   modifies nothing
+//@   ensures [present] err == nil && badger.kvget(*txn, RoundKeyId(kvval(hash))) != 0 ==> result0 != nil
+//@   ensures [fresh] result0 != nil ==> fresh(result0) && allocated(result0)
+//@   ensures [references] err == nil && result0 != nil && result0.Number > 0 ==> result0.References != nil && allocated(result0.References)
+
+//@ -- DbSnapChange: SnapChange over the committed state, plus the WORKSNAPSHOT record (kind 11) of this snapshot written by writeSnapshotWork.
+//@ spec DbSnapChange(a badger.DB, b badger.DB, node mathint, skey mathint, order mathint, sid mathint, wkey mathint) bool =
+//@     (forall k mathint :: {badger.dbget(b, k)} keykind(k) == 3 || keykind(k) == 4 || keykind(k) == 5 ==> badger.dbget(b, k) == badger.dbget(a, k)) &&
+//@     (forall k mathint :: {badger.dbget(b, k)} (keykind(k) == 6 || keykind(k) == 2) && badger.dbget(a, k) != 0 ==> badger.dbget(b, k) == badger.dbget(a, k)) &&
+//@     (forall k mathint :: {badger.dbget(b, k)} keykind(k) == 7 && keynode(k) != node ==> badger.dbget(b, k) == badger.dbget(a, k)) &&
+//@     (forall k mathint :: {badger.dbget(b, k)} keykind(k) == 8 && k != skey ==> badger.dbget(b, k) == badger.dbget(a, k)) &&
+//@     (forall k mathint :: {badger.dbget(b, k)} keykind(k) == 9 && k != TopoKeyId(order) ==> badger.dbget(b, k) == badger.dbget(a, k)) &&
+//@     (forall k mathint :: {badger.dbget(b, k)} keykind(k) == 10 && k != SnapTopoKeyId(sid) ==> badger.dbget(b, k) == badger.dbget(a, k)) &&
+//@     (forall k mathint :: {badger.dbget(b, k)} keykind(k) == 11 && k != wkey ==> badger.dbget(b, k) == badger.dbget(a, k))
+
+//@ -- WriteSnapshot: ONE badger transaction (NewTransaction ... Commit), under the store mutex. All or nothing:
+//@ --  [atomic]  every failing execution leaves the committed state exactly as it was: all writes go to the one transaction, and Commit
+//@ --            is reached only when writeSnapshot and writeSnapshotWork both succeeded (a failing Commit writes nothing);
+//@ --  success   installs the transaction's view: the effects are those of writeSnapshot + writeSnapshotWork, restated over the committed state.
+//@ -- maypanic: the explicit panics are the `config.Debug` assertion block ("FIXME assert only"): they precede every write and the Commit;
+//@ -- the deferred Discard drops the transaction, so a panicking execution applies nothing either (Go semantics of defer, argued, not an
+//@ -- obligation: the engine has no model of the state after a panic).
+//@ func (s *BadgerStore) WriteSnapshot
+//@   property C15
+//@   lockset mutex -- syntactic: s.mutex.Lock() + deferred Unlock around the single badger transaction (not a proof about schedules)
+//@   maypanic
+//@   requires StoreOK(s) && SnapOK(snap)
+//@   requires [signers] len(signers) < 144115188075855872 -- see writeSnapshotWork
+//@   requires [debug-block] badger.dbget(*s.snapshotsDB, RoundKeyId(kvval(snap.NodeId))) != 0 && (snap.RoundNumber > 0 ==> snap.References != nil) -- the assertion block dereferences the round cache and both reference links: kernel writes ROUND/<node> (StartNewRound) before the first snapshot of a round; a snapshot of a positive round carries references (C07 decoder: [count]/round rules)
+//@   modifies *s.snapshotsDB
+//@   ensures [atomic] err != nil ==> *s.snapshotsDB == old(*s.snapshotsDB)
+//@   ensures [change] DbSnapChange(old(*s.snapshotsDB), *s.snapshotsDB, kvval(snap.NodeId), SnapKeyOf(snap), snap.TopologicalOrder, common.SnapId(snap.Snapshot), WorkSnapKeyId(kvval(snap.NodeId), snap.RoundNumber, snap.Timestamp))
+//@   ensures [unique] err == nil ==> forall i int :: {snap.Transactions[i]} 0 <= i && i < len(snap.Transactions) ==> badger.dbget(*s.snapshotsDB, QK(snap.NodeId, snap.Transactions[i])) != 0
+//@   ensures [snapshot] err == nil ==> badger.dbget(*s.snapshotsDB, SnapKeyOf(snap)) != 0
+//@   ensures [topology] err == nil ==> badger.dbget(*s.snapshotsDB, TopoKeyId(snap.TopologicalOrder)) == KeyAsVal(SnapKeyOf(snap)) && badger.dbget(*s.snapshotsDB, SnapTopoKeyId(common.SnapId(snap.Snapshot))) == KeyAsVal(TopoKeyId(snap.TopologicalOrder)) &&
+//@       old(badger.dbget(*s.snapshotsDB, TopoKeyId(snap.TopologicalOrder))) == 0
+//@   ensures [work] err == nil ==> badger.dbget(*s.snapshotsDB, WorkSnapKeyId(kvval(snap.NodeId), snap.RoundNumber, snap.Timestamp)) != 0
+//@   loop 0 invariant [stored] forall j int :: {snap.Transactions[j]} 0 <= j && j <= rangeindex ==> HasTx(*txn, snap.Transactions[j])
